@@ -387,7 +387,48 @@ def _stmt_parent(f, node):
     return None
 
 
+def _trivial_return_expr(g):
+    """the expression of a helper that is assertions + one `return e;`, else None"""
+    ret = None
+    for s_ in kids(g.body):
+        k = s_["kind"]
+        if k == "DoStmt" or (k in ("ParenExpr", "ConditionalOperator", "CStyleCastExpr") and
+                             any(x["kind"] == "CallExpr" and callee_ref(x) == "cmi_assert_failed" for x in walk(s_))):
+            continue
+        if k == "ReturnStmt" and ret is None and kids(s_):
+            ret = kids(s_)[0]
+            continue
+        return None
+    return ret
+
+
+def _inline_expr(f, call, g):
+    """Replace a call of a one-expression helper by that expression (arguments must be free of side effects)."""
+    e = _trivial_return_expr(g)
+    args = kids(call)[1:]
+    if e is None or len(args) != len(g.params) or not all(_pure_expr(a) for a in args):
+        return False
+    sub = copy.deepcopy(e)
+    amap = {p["id"]: a for p, a in zip(g.params, args)}
+
+    def rec(n):
+        ch = n.get("inner")
+        if not ch:
+            return
+        for i, c in enumerate(ch):
+            if c["kind"] == "DeclRefExpr" and c.get("ref", {}).get("id") in amap:
+                ch[i] = _mk("ParenExpr", [copy.deepcopy(amap[c["ref"]["id"]])], type=c.get("type"), file=call.get("file"),
+                            line=call.get("line"), col=call.get("col"))
+            else:
+                rec(c)
+    holder = _mk("ParenExpr", [sub], type=call.get("type"), file=call.get("file"), line=call.get("line"), col=call.get("col"))
+    rec(holder)
+    return _replace_node(f.body, call, holder)
+
+
 def _inline_site(f, call, g):
+    if _inline_expr(f, call, g):
+        return True
     loc_ = _stmt_parent(f, call)
     if loc_ is None:
         return False
